@@ -67,6 +67,10 @@ structure Quad where (x y : Nat) deriving DecidableEq, Repr
 def Grid.box (g : Grid) (l : Nat) (p : Quad) : Box :=
   ⟨g.minX + p.x * g.span l, g.minY + p.y * g.span l, g.minX + (p.x + 1) * g.span l, g.minY + (p.y + 1) * g.span l⟩
 
+/-- `getQuadrantExtentAndCentroid`: the centroid handed out as the snapped coordinate (`span/2` with Go's integer division) -/
+def Grid.centroid (g : Grid) (l : Nat) (p : Quad) : Pt :=
+  ⟨g.minX + p.x * g.span l + g.span l / 2, g.minY + p.y * g.span l + g.span l / 2⟩
+
 /-- the `Parent` view of quadrant `p` on level `l` (its half-span is the span of level `l+1`) -/
 def Grid.parent (g : Grid) (l : Nat) (p : Quad) : Parent :=
   ⟨g.minX + p.x * g.span l, g.minY + p.y * g.span l, g.span (l + 1)⟩
